@@ -84,7 +84,7 @@ def run(ctx):
         metas[lib.case_id(c)] = meta
     ctx.rule = ('random policy sets (1-4 policies over the C06 atom language) x request templates with variables in principal / resource / '
                 'whole context / nested in context records, sets and sub-records, the same variable several times, ignored parts x value '
-                'lists of length 0-3 with duplicates, unused and unbound variables; 60%% plain runs, 20%% callback failure at a random '
+                'lists of length 0-3 with duplicates, unused and unbound variables; 60%% plain runs, 20%% callback failure (a plain error, or one that wraps the end of another context) at a random '
                 'position, 20%% context cancellation (half by cancel(), half by an expiring deadline) at a random position. Compared: (a) status, number of callbacks and the multiset of '
                 '(request, values, decision, reason ids) Go = model; (b) Go batch results = cedar.Authorize on every substitution (brute force '
                 'inside the harness); (c) failure/cancellation stops after exactly k+1 / k callbacks with that error. '
